@@ -67,8 +67,9 @@ pub struct Interp<'tcx> {
     pub rng_mode: u8, // 0 = both outcomes, 1 = force Ok, 2 = force Err
     pub leaks: BTreeMap<String, String>,
     pub taint_track: bool,
-    pub memo: HashMap<(Instance<'tcx>, Vec<(i128, i128, u8)>), (Val, Vec<String>)>,
+    pub memo: HashMap<(Instance<'tcx>, Vec<(i128, i128, u8)>), (Vec<Val>, Vec<String>)>,
     pub memo_hits: u64,
+    pub prof: BTreeMap<String, (u64, u128)>,
     pub trace_on: bool,
     pub trace_pat: String,
     pub reject_witness: Vec<Val>,
@@ -76,6 +77,8 @@ pub struct Interp<'tcx> {
     pub pending_origin: Option<(u32, Ptr, u32)>,
     pub pending_bdef: Option<(u32, BoolDef)>,
     pub pending_discr: Option<(u32, Ptr)>,
+    pub ret_key: u8,
+    pub next_atom: usize,
     pub cur_bb: usize,
     pub cur_call_bb: usize,
     pub atom_names: HashMap<AtomId, String>,
@@ -121,6 +124,7 @@ impl<'tcx> Interp<'tcx> {
             taint_track: false,
             memo: HashMap::new(),
             memo_hits: 0,
+            prof: BTreeMap::new(),
             trace_on: std::env::var("VERIF_TRACE").is_ok(),
             trace_pat: std::env::var("VERIF_TRACE").unwrap_or_default(),
             reject_witness: Vec::new(),
@@ -128,6 +132,8 @@ impl<'tcx> Interp<'tcx> {
             pending_origin: None,
             pending_bdef: None,
             pending_discr: None,
+            ret_key: 3,
+            next_atom: 0,
             cur_bb: 0,
             cur_call_bb: 0,
             atom_names: HashMap::new(),
@@ -454,7 +460,13 @@ impl<'tcx> Interp<'tcx> {
     }
 
     pub fn fresh_atom(&mut self, st: &mut State, lo: i128, hi: i128, def: Option<Rc<Lin>>) -> AtomId {
-        let id = st.atoms.len() as AtomId;
+        // ids are never reused while a scalar region is alive, even across forked states
+        let idu = self.next_atom.max(st.atoms.len());
+        self.next_atom = idu + 1;
+        if st.atoms.len() < idu {
+            st.atoms.resize(idu, (i128::MIN, i128::MAX));
+        }
+        let id = idu as AtomId;
         st.atoms.push((lo, hi));
         let defs = Rc::make_mut(&mut self.atom_defs);
         if defs.len() <= id as usize {
